@@ -50,7 +50,7 @@ func nonEmptyTest(cond ssa.Value, v ssa.Value) (isTest bool, nonEmptyWhenTrue bo
 		return false, false
 	}
 	call, ok := b.X.(*ssa.Call)
-	if !ok || !isBuiltin(call, "len") || call.Call.Args[0] != v {
+	if !ok || !isBuiltin(call, "len") || !(call.Call.Args[0] == v || sameVal(call.Call.Args[0], v)) {
 		return false, false
 	}
 	c, okc := constInt(b.Y)
